@@ -12,7 +12,7 @@ import (
 // PlusKinds are the features of the wider class W+ (C09 only).
 var PlusKinds = []string{"ptrIntoOperation", "ptrNestedInline", "ptrMissingPosition", "ptrInPtrTarget", "ptrCycle", "auxBackRef", "collisionWithRefs",
 	"danglingLocalDef", "danglingRemoteFile", "danglingRemoteFragment", "recursiveContainers", "wholeDocSchema", "paramRefToNonParam", "responseRefToNonResponse",
-	"ptrToNonSchema", "refWithSiblings", "absoluteSelfRef", "itemsRef", "deepNesting", "pathItemRefDangling", "selfRefDefinition", "ptrToSelf", "sharedRefToRemote", "sharedRefToMissing", "wholeDocPointerNested", "httpRemote", "ptrTailIntoCycle", "collidingRecursiveImports"}
+	"ptrToNonSchema", "refWithSiblings", "absoluteSelfRef", "itemsRef", "deepNesting", "pathItemRefDangling", "selfRefDefinition", "ptrToSelf", "sharedRefToRemote", "sharedRefToMissing", "wholeDocPointerNested", "httpRemote", "ptrTailIntoCycle", "collidingRecursiveImports", "percentNames"}
 
 // MustErrorKinds: planted at a position reachable from an operation, Flatten must return an error (ContinueOnError off).
 var MustErrorKinds = map[string]bool{"ptrMissingPosition": true, "ptrCycle": true, "ptrTailIntoCycle": true, "danglingRemoteFile": true, "danglingRemoteFragment": true, "sharedRefToMissing": true}
@@ -111,6 +111,33 @@ func (b *Bundle) Plus(kind string) {
 			b.useRef("sub/a.json#/definitions/"+y, "schema")
 		}
 		b.Tag("cycle")
+	case "percentNames":
+		// names holding a '%' (outside the alphabet of W): as a stray character, as an invalid and as a valid escape
+		pn := []string{"a%b", "x%zz", "p%41q", "100%", "%"}
+		v := b.Variant
+		if v < 0 {
+			v = b.rng.IntN(20)
+		}
+		n := pn[(b.id()+v)%len(pn)] + k
+		switch v % 4 {
+		case 0: // definition and property names, inline complex schemas below them
+			b.Def(n, jx.Obj{"type": "object", "description": b.lbl("pc"), "properties": jx.Obj{n: b.Obj(), "plain": jx.Obj{"$ref": "#/definitions/" + jx.EscTok(n)}}})
+			b.useRef("#/definitions/"+strings.ReplaceAll(jx.EscTok(n), "%", "%25"), holder)
+		case 1: // path template and shared parameter / response names
+			op := b.Op("/r"+k+"/"+n+"/{id}", Pick(b.rng, MethodsAll), Chance(b.rng, 50))
+			op["parameters"] = jx.Arr{jx.Obj{"name": "body", "in": "body", "schema": b.Obj()}}
+			jx.AsObj(op["responses"])["200"] = jx.Obj{"description": b.lbl("pc"), "schema": b.Obj()}
+			b.section(b.Root, "parameters")[n] = jx.Obj{"name": "body", "in": "body", "schema": b.Obj()}
+			b.section(b.Root, "responses")[n] = jx.Obj{"description": b.lbl("pc"), "schema": b.Obj()}
+		case 2: // imported definition
+			f := Pick(b.rng, auxFiles)
+			b.AuxDef(f, n, b.Obj())
+			b.useRef(f+"#/definitions/"+strings.ReplaceAll(jx.EscTok(n), "%", "%25"), holder)
+		default: // anonymous pointer below a '%' name, referred to raw (an invalid $ref for most of the names)
+			b.Def("PcHost"+k, jx.Obj{"type": "object", "description": b.lbl("pc"), "properties": jx.Obj{n: b.Obj()}})
+			b.useRef("#/definitions/PcHost"+k+"/properties/"+jx.EscTok(n), holder)
+			b.useRef("#/definitions/PcHost"+k, "schema")
+		}
 	case "auxBackRef":
 		b.Def("Back"+k, b.Obj())
 		f := Pick(b.rng, auxFiles)
@@ -478,7 +505,8 @@ func Mutate(rng *rand.Rand, files map[string]string, root string) string {
 		if o, ok := func() (jx.Obj, bool) { v, _ := jx.Get(docs[t.file], t.toks); o, ok := v.(jx.Obj); return o, ok }(); ok && len(refs) > 0 {
 			r := Pick(rng, refs)
 			v, _ := jx.Get(docs[r.file], r.toks)
-			o["$ref"] = v
+			// (an earlier mutation may have put a non-string under "$ref", possibly an ancestor of o: copy, never alias)
+			o["$ref"] = jx.Clone(v)
 			write(t.file)
 		}
 	}
